@@ -25,6 +25,8 @@ import (
 const probePath = "/zprobe.jet"
 const leavePath = "/zleave.jet"
 
+var rePtrMethod = regexp.MustCompile(`<ptrmethod:[a-z]*:([^>]*)>`)
+
 var reInner = regexp.MustCompile(`<inner:([^>]*)>`)
 
 var reTwin = regexp.MustCompile(`<twin:([^=|>]*)=([^=|>]*)\|([^=|>]*)=([^=|>]*)>`)
@@ -52,6 +54,9 @@ func stateProbeSource(w *gen.World) string {
 	b.WriteString("<twin:{{root.Col.Name}}={{root.Col2.Name}}|{{root.Col.Only}}={{root.Col2.Only}}>")
 	// the embedded struct reached by its own name, after its embedder was resolved: what the data holds
 	b.WriteString("<inner:{{try}}{{root.Col.Inner.Name}}|{{root.Col.Inner.Only}}{{catch}}FAILED{{end}}>")
+	// a pointer-receiver method: asked for on a value that is not addressable first (isset says what it
+	// says), then called through a pointer - which must work whatever the first lookup found
+	b.WriteString("<ptrmethod:{{isset(item.PtrName)}}:{{try}}{{item.Sub.PtrName()}}{{catch}}FAILED{{end}}>")
 	b.WriteString("<blocks:")
 	seen := map[string]bool{}
 	for _, bi := range w.Blocks {
@@ -138,6 +143,8 @@ func RunC10(env *sim.Env) {
 	}
 
 	var hist []string
+	var prevVars jet.VarMap
+	var prevSnap map[string]string
 	failedReuse := 0
 	exec := func(call Call) {
 		hs := set
@@ -172,6 +179,17 @@ func RunC10(env *sim.Env) {
 		if m := reInner.FindStringSubmatch(o.Out); m != nil && m[1] != "embedded|only" {
 			env.Violate("alone-run-equality", "residue:embedded-struct-fields-resolve-wrongly", "call %q renders %s: the fields of the embedded struct hold \"embedded\" and \"only\" - what they resolve to depends on which struct type the process resolved first\nhistory: %s", call.String(), sim.Q(m[0]), strings.Join(hist[max(0, len(hist)-4):], " ; "))
 		}
+		if m := rePtrMethod.FindStringSubmatch(o.Out); m != nil && m[1] != "P:sub" {
+			env.Violate("alone-run-equality", "residue:pointer-method-lost", "call %q renders %s: the pointer-receiver method PtrName of the *Item holds \"P:sub\"; what a method name resolves to depends on how the process looked it up first\nhistory: %s", call.String(), sim.Q(m[0]), strings.Join(hist[max(0, len(hist)-4):], " ; "))
+		}
+		// the VarMap of the call before this one, looked at again: an execution must not reach back into
+		// what an earlier caller passed in (a recycled scope that is really somebody's VarMap)
+		if prevVars != nil {
+			if d := varsDiff(prevSnap, varsSnapshot(prevVars)); d != "" {
+				env.Violate("inputs-untouched", "earlier-callers-varmap-changed", "call %q changed the VarMap that the call before it had passed to Execute (%s)\nhistory: %s", call.String(), d, strings.Join(hist[max(0, len(hist)-4):], " ; "))
+			}
+		}
+		prevVars, prevSnap = o.Vars, o.VarsAfter
 		if o.VarsChanged != "" {
 			env.Violate("inputs-untouched", "caller-varmap-changed", "call %q: Execute changed the VarMap the caller passed in (%s); a caller that keeps its VarMap gets another rendering from the next Execute with the same inputs.\nhistory: %s", call.String(), o.VarsChanged, strings.Join(hist[max(0, len(hist)-4):], " ; "))
 		}
@@ -317,13 +335,20 @@ func RunC10(env *sim.Env) {
 		if len(fps) > 0 && t.Choose(2) == 1 {
 			f := fps[t.Choose(len(fps))]
 			reps := t.Range(20, 90)
+			if t.Choose(3) == 2 {
+				reps = []int{300, 450, 1100}[t.Choose(3)] // counters that saturate near a thousand (one or a few levels per failed execution)
+			}
+			// the most recently released Runtime every time: what accumulates, accumulates on one object
+			savedPolicy := pools.Policy
+			pools.Policy = simrt.PoolLIFO
 			for i := 0; i < reps; i++ {
 				exec(Call{Tmpl: m, Data: d, FaultProbe: f.probe, FaultProbe2: f.probe2, FaultWrite: f.write, FaultKind: f.kind, NilVars: nilVars})
 			}
-			env.Stat("probe:same_failure_repeated_20_to_90_times", 1)
+			env.Stat("probe:same_failure_repeated_20_to_1100_times", 1)
 			for _, follow := range targets {
 				exec(Call{Tmpl: follow, Data: d, NilVars: nilVars})
 			}
+			pools.Policy = savedPolicy
 		}
 	}
 
